@@ -20,7 +20,7 @@ import (
 // (round keys, tables) must survive as long as ANY of them is alive. With concurrent=true other
 // goroutines keep using the survivors while the collection happens. judgeBlk / judgeAEAD select what
 // the calling property is about (C05: the Block; C06: the AEADs; C17: both).
-func lifetimeHistories(r *hk.Reporter, rng *hk.RNG, pn string, sessions int, concurrent bool, judgeBlk, judgeAEAD bool) {
+func zvLifetimeHistories(r *hk.Reporter, rng *hk.RNG, pn string, sessions int, concurrent bool, judgeBlk, judgeAEAD bool) {
 	type sib struct {
 		a        cipher.AEAD
 		nl, tag  int
@@ -50,7 +50,7 @@ func lifetimeHistories(r *hk.Reporter, rng *hk.RNG, pn string, sessions int, con
 			case 2:
 				s.nl = rng.Pick([]int{1, 8, 13, 16, 33})
 			}
-			s.a, _ = newAEADFromBlock(blk, s.nl, s.tag)
+			s.a, _ = zvNewAEADFromBlock(blk, s.nl, s.tag)
 			s.nonce, s.aad, s.pt = rng.Bytes(s.nl), rng.Bytes(rng.Pick([]int{0, 5, 16, 40})), rng.Bytes(rng.Pick([]int{0, 1, 16, 31, 64, 100, 300}))
 			s.expected = g.Seal(s.nonce, s.pt, s.aad, s.tag)
 			return s
